@@ -28,7 +28,7 @@ from sim import driver  # noqa: E402
 
 driver.bootstrap()
 
-from sim import gen_args, gen_docs, snapshot  # noqa: E402
+from sim import gen_args, gen_docs, peer_eyaml, snapshot  # noqa: E402
 from sim.gen_docs import S, M, L  # noqa: E402
 from sim.util import QuietLog, strict_load, strict_load_all  # noqa: E402
 from sim.world import READ_KINDS, fs_visible  # noqa: E402
@@ -200,6 +200,16 @@ def some_path(rng, doc):
 # yaml-get
 # ----------------------------------------------------------------------
 def gen_get(rng):
+    if rng.random() < 0.12:
+        sgen = gen_args.SecretDocGen(rng)
+        doc = sgen.document(rng.choice([1, 2, 3]))
+        text = gen_docs.to_yaml(doc)
+        path, _sep = some_path(rng, doc)
+        if rng.random() < 0.5:
+            path = rng.choice(["**", "*", "/**"])
+        return {"tool": "yaml-get", "opts": ["-p", path] + KEYOPTS,
+                "doc": text, "fname": W + "doc.yaml", "files": {},
+                "path": path, "pathsep": "auto", "eyaml": True}
     doc = doc_for(rng)
     text, suffix = render_doc(rng, doc)
     path, sep = some_path(rng, doc)
@@ -219,9 +229,41 @@ def expect_get(scn):
         return {"exit": 1, "lines": None}
     proc = EYAMLProcessor(QuietLog(), data)
     try:
-        nodes = [NodeCoords.unwrap_node_coords(n)
-                 for n in proc.get_eyaml_values(
-                     YAMLPath(scn["path"]), mustexist=True)]
+        if scn.get("eyaml"):
+            # independent of the code under test: match on the ciphertext
+            # document, decrypt with the stand-in cipher itself
+            nodes = []
+            for crd in proc.get_nodes(YAMLPath(scn["path"]), mustexist=True):
+                node = NodeCoords.unwrap_node_coords(crd)
+                if isinstance(node, str) and \
+                        clean_enc(node).startswith("ENC["):
+                    got = peer_eyaml.decrypt(clean_enc(node), "old")
+                    if got is None:
+                        return {"exit": 2, "lines": []}
+                    node = got.decode("ascii")
+                elif isinstance(node, list):
+                    # the library decrypts the members of a matched list
+                    # (recursively through nested lists), never a hash's
+                    def members(seq):
+                        out_ = []
+                        for ele in seq:
+                            if isinstance(ele, list):
+                                out_.append(members(ele))
+                            elif isinstance(ele, str) and \
+                                    clean_enc(ele).startswith("ENC["):
+                                dec = peer_eyaml.decrypt(clean_enc(ele),
+                                                         "old")
+                                out_.append(dec.decode("ascii")
+                                            if dec is not None else ele)
+                            else:
+                                out_.append(ele)
+                        return out_
+                    node = members(node)
+                nodes.append(node)
+        else:
+            nodes = [NodeCoords.unwrap_node_coords(n)
+                     for n in proc.get_eyaml_values(
+                         YAMLPath(scn["path"]), mustexist=True)]
     except YAMLPathException:
         return {"exit": 1, "lines": []}
     except Exception as ex:  # pylint: disable=broad-except
@@ -561,6 +603,29 @@ def judge_diff(scn, exp, res):
 # yaml-paths
 # ----------------------------------------------------------------------
 def gen_paths(rng):
+    if rng.random() < 0.12:
+        # --decrypt: search the plaintext of encrypted values; several
+        # documents re-use anchor names for different secrets
+        sgen = gen_args.SecretDocGen(rng)
+        files = {}
+        names = []
+        for idx in range(rng.choice([1, 2])):
+            parts = []
+            for _ in range(rng.choice([1, 2, 2])):
+                parts.append(gen_docs.to_yaml(
+                    sgen.document(rng.choice([1, 2, 3])), start=True))
+            name = W + "e%d.yaml" % idx
+            files[name] = "".join(parts)
+            names.append(name)
+        exprs = [rng.choice(["=s3cret", "^pass", "%ecret", "=x", "=0",
+                             "$1", "=true", "^a much", "=hunter2", "^two"])]
+        opts = ["-e", "-s", exprs[0]] + KEYOPTS
+        for flag, prob in (("-L", 0.3), ("-F", 0.3), ("-y", 0.3),
+                           ("-l", 0.2)):
+            if rng.random() < prob and not (flag == "-l" and "-y" in opts):
+                opts.append(flag)
+        return {"tool": "yaml-paths", "opts": opts, "names": names,
+                "files": files, "exprs": exprs, "eyaml": True}
     nfiles = rng.choice([1, 1, 2])
     files = {}
     names = []
@@ -639,7 +704,11 @@ def expect_paths(scn, names, files, stdin_text):
         if name == "-" and okay and not docs:
             docs = [""]
         for index, data in enumerate(docs):
+            shown_data = data
+            if scn.get("eyaml"):
+                data = decrypted_copy(data)
             proc = EYAMLProcessor(log, data)
+            show_proc = EYAMLProcessor(log, shown_data)
             anchors = {}
             Anchors.scan_for_anchors(data, anchors)
             found = []
@@ -700,7 +769,7 @@ def expect_paths(scn, names, files, stdin_text):
                 if show_path and show_val:
                     line += ": "
                 if show_val:
-                    for crd in proc.get_nodes(result, mustexist=True):
+                    for crd in show_proc.get_nodes(result, mustexist=True):
                         node = crd.node
                         if isinstance(node, (dict, list, CommentedSet)):
                             line += json.dumps(plain(node))
@@ -1328,6 +1397,63 @@ def build_runs(rng, scn, knobs):
     return runs
 
 
+KEYFILES = {
+    W + "old_pub.pem": peer_eyaml.key_file("PUBLIC", "old"),
+    W + "old_priv.pem": peer_eyaml.key_file("PRIVATE", "old"),
+}
+KEYOPTS = ["-r", W + "old_priv.pem", "-u", W + "old_pub.pem"]
+
+
+def clean_enc(value):
+    return str(value).replace("\n", "").replace(" ", "")
+
+
+def decrypted_copy(data):
+    """The document with every ENC[...] value replaced by its plaintext."""
+    import copy as _copy
+    data = _copy.deepcopy(data)
+
+    from ruamel.yaml.scalarstring import PlainScalarString
+    memo = {}
+
+    def plain_of(val):
+        if isinstance(val, str) and clean_enc(val).startswith("ENC["):
+            if id(val) in memo:
+                return memo[id(val)]        # aliases stay one shared node
+            got = peer_eyaml.decrypt(clean_enc(val), "old")
+            if got is not None:
+                name = snapshot.node_anchor(val)
+                text = got.decode("ascii")
+                rep = PlainScalarString(text, anchor=name) if name \
+                    else PlainScalarString(text)
+                memo[id(val)] = rep
+                return rep
+        return None
+
+    seen = set()
+
+    def walk(node):
+        if id(node) in seen:
+            return
+        seen.add(id(node))
+        if isinstance(node, dict):
+            for key in list(node.keys()):
+                rep = plain_of(node[key])
+                if rep is not None:
+                    node[key] = rep
+                else:
+                    walk(node[key])
+        elif isinstance(node, list):
+            for idx, val in enumerate(node):
+                rep = plain_of(val)
+                if rep is not None:
+                    node[idx] = rep
+                else:
+                    walk(val)
+    walk(data)
+    return data
+
+
 def judge_run(scn, chan, recipe, ctx, res, cache):
     """Violation classes of one channel's run."""
     tool = scn["tool"]
@@ -1420,6 +1546,11 @@ def run_scenario(seed, shard, idx, tier):
              "text_buf": rng.choice([1, 16, 8192]),
              "write_through": rng.random() < 0.5}
     runs = build_runs(rng, scn, knobs)
+    if scn.get("eyaml"):
+        for recipe, _ctx in runs.values():
+            recipe["peer"] = {"nonce_seed": 7, "block_width": 60,
+                              "faults": {}, "installed": True}
+            recipe["files"] = dict(recipe["files"], **KEYFILES)
     cache = {}
     stats = {"runs": 0, "steps": 0, "violations": [], "behaviours": set(),
              "fired": {}, "digest": hashlib.sha256(), "tool": tool}
